@@ -548,9 +548,20 @@ func componentCase(c *Case) (*WF, string) {
 			s2 := srcNode(w, "src1", 1+t.Choose(simrt.StGen, 2, 0), "")
 			from = append(from, Edge{s2, "out"})
 		}
-		cc := addNode(w, Node{Name: "cat", Kind: KConcat, OutPath: "concat/all.txt", Rec: true,
+		groupBy := ""
+		if len(from) == 1 && t.Choose(simrt.StGen, 4, 0) == 1 {
+			// GroupByTag: inputs are tagged with one of 1..3 group names upstream and
+			// concatenated per group
+			groupBy = "grp"
+			tg := addNode(w, Node{Name: "tagg", Kind: KMapToTags, TagKey: "grp", TagGroups: 1 + t.Choose(simrt.StGen, 3, 0),
+				Ins: []InSpec{{Name: "in", From: from}}, Outs: []OutSpec{{Name: "out"}}})
+			from = []Edge{{tg, "out"}}
+		}
+		cc := addNode(w, Node{Name: "cat", Kind: KConcat, OutPath: "concat/all.txt", Rec: true, GroupBy: groupBy,
 			Ins: []InSpec{{Name: "in", From: from}}, Outs: []OutSpec{{Name: "out"}}})
-		oneToOne(w, "use", Edge{cc, "out"})
+		if groupBy == "" {
+			oneToOne(w, "use", Edge{cc, "out"})
+		}
 	case "globber":
 		names := []string{"data/a1.txt", "data/a2.txt", "data/b1.txt", "data/b2.dat", "other/a1.txt", "data/ab.txt", "top.txt"}
 		var present []string
@@ -649,7 +660,7 @@ func linesOf(b []byte) int { return strings.Count(string(b), "\n") }
 
 func init() {
 	Register(&Check{ID: "C19", Level: "exploration",
-		Rule: "one case = one bundled component in a small tape-generated harness workflow under one tape-chosen schedule (incl. map-iteration order, which decides the combinators' 'head' port): FileCombinator / ParamCombinator with 1..4 ports and stream lengths 0..4 (independent upstreams; or one shared upstream with length <= bufsize) feeding a consuming zip process - every element of the Cartesian product exactly once, ports aligned; IPSelectorSync with 1..4 aligned ports and a tape-chosen predicate mask - exactly the all-true tuples; FileSplitter (files of 0..7 lines, 1..3 lines per split) - recorded parts concatenate to the input, no part longer than the limit; Concatenator (inputs of a few bytes up to 2 MiB + remainder, around common copy-buffer sizes) - output = inputs in recorded arrival order, each followed by newline; FileGlobber over a generated tree vs an independent glob evaluation; FileToParamsReader / CommandToParams / FileSource / ParamSource - exactly the given items in order. distinct = event-log hash; non-trivial = >=2 tasks, >=1 non-default choice",
+		Rule: "one case = one bundled component in a small tape-generated harness workflow under one tape-chosen schedule (incl. map-iteration order, which decides the combinators' 'head' port): FileCombinator / ParamCombinator with 1..4 ports and stream lengths 0..4 (independent upstreams; or one shared upstream with length <= bufsize) feeding a consuming zip process - every element of the Cartesian product exactly once, ports aligned; IPSelectorSync with 1..4 aligned ports and a tape-chosen predicate mask - exactly the all-true tuples; FileSplitter (files of 0..7 lines, 1..3 lines per split) - recorded parts concatenate to the input, no part longer than the limit; Concatenator (inputs of a few bytes up to 2 MiB + remainder, around common copy-buffer sizes) - output = inputs in recorded arrival order, each followed by newline (also with GroupByTag: one output per group value, and with something already at the output path); FileGlobber over a generated tree vs an independent glob evaluation; FileToParamsReader / CommandToParams / FileSource / ParamSource - exactly the given items in order. distinct = event-log hash; non-trivial = >=2 tasks, >=1 non-default choice",
 		Run: func(c *Case) Verdict {
 			w, kind := componentCase(c)
 			c.Sample = kind + ": " + sample(w)
@@ -734,7 +745,35 @@ func init() {
 					blocks = append(blocks, fid.data+"\n")
 				}
 				nEdges := len(w.NodeByName("cat").Ins[0].From)
-				if nEdges == 1 {
+				if tg := w.NodeByName("tagg"); tg != nil {
+					// grouped: one output per group value, each = its members in arrival
+					// order; the plain output stays empty
+					groups := map[string]string{}
+					for _, p := range arrival {
+						fid, _ := idOf(root, Abs(p))
+						groups[tagValueFor(tg, p)] += fid.data + "\n"
+					}
+					if id.data != "" {
+						return Viol("concat-content", kind, "GroupByTag: every input carries the tag, yet the plain output holds %q", clip([]byte(id.data)))
+					}
+					for _, g := range sortedKeys(groups) {
+						gp := "/work/concat/all.txt.grp_" + g
+						gid, ok := idOf(root, gp)
+						if !ok {
+							return Viol("concat-missing", kind, "GroupByTag: output %s for group %s missing", gp, g)
+						}
+						if gid.data != groups[g] {
+							return Viol("concat-content", kind, "GroupByTag: %s holds %q; the inputs tagged %s in arrival order give %q", gp, clip([]byte(gid.data)), g, clip([]byte(groups[g])))
+						}
+					}
+					for pth, e := range WorkFiles(root) {
+						if strings.HasPrefix(pth, "/work/concat/all.txt.grp_") && !strings.HasSuffix(pth, ".audit.json") && e.Kind == simrt.KFile {
+							if _, ok := groups[strings.TrimPrefix(pth, "/work/concat/all.txt.grp_")]; !ok {
+								return Viol("concat-content", kind, "GroupByTag: unexpected group output %s", pth)
+							}
+						}
+					}
+				} else if nEdges == 1 {
 					if id.data != strings.Join(blocks, "") {
 						return Viol("concat-content", kind, "Concatenator output (%d bytes) %q; inputs in arrival order give (%d bytes) %q", len(id.data), clip([]byte(id.data)), len(strings.Join(blocks, "")), clip([]byte(strings.Join(blocks, ""))))
 					}
